@@ -69,6 +69,10 @@ def cases(rng, tier):
 			yield ('c', u'', u'', u'', u'', None, rel, pairs, frag)
 			continue
 		yield ('c', scheme, user, pw, host, port, segs, pairs, frag)
+	# query names and values made of letters / digits outside ASCII only, percent signs followed by hex digits
+	for pairs in (((u'caf\u00e9', u'\u0432'),), ((u'\u65e5\u672c', u'\u0663'),), ((u'name', u'%41'), (u'%e9', u'100%25')), ((u'\u00df', u'\u00b5'),)):
+		yield ('c', u'http', u'', u'', u'h', None, (u'p',), pairs, u'')
+		yield ('c', u'https', u'a:b', u'c:d', u'h', None, (u'\u65e5\u672c', u'caf\u00e9'), pairs, u'\u00e9')
 	# many segments / query pairs, long components (counts and lengths around the numbers a limit or a cache would have)
 	for cnt in (17, 33, 65, 129, 300) + ((1025,) if tier == 'thorough' else ()):
 		segs = tuple(text(rng, rng.choice((1, 2))) or u's' for _ in range(cnt))
